@@ -366,6 +366,29 @@ fn step_poll_recv_batch(cap: usize, nr: usize, already: bool) {
   kani::cover!(true, "END");
 }
 
+/// Reduced twin of step_poll_recv_batch for the registration path only (the full step exceeds 24 GB): EMPTY buffer,
+/// a sender alive, max = 1.  Pending, and exactly one WAITING record for this future holds the LATEST waker: a re-poll
+/// of an already queued future replaces the stored waker (it neither adds a second record nor keeps the stale one).
+fn step_poll_recv_batch_pending(cap: usize, nr: usize, already: bool) {
+  let sh = MpmcShared::<u8>::new(cap);
+  let m = WMem::new();
+  let s = any_state(&sh, &m, nr, 0);
+  kani::assume(s.n == 0 && s.sc > 0);
+  let my = AtomicU8::new(kani::any());
+  let my_ptr: *const AtomicU8 = if already { &m.rs[0] as *const AtomicU8 } else { &my as *const AtomicU8 };
+  if already { kani::assume(s.r_wait[0]); }
+  let w = waker(3);
+  let mut cx = Context::from_waker(&w);
+  let mut out: Vec<u8> = Vec::new();
+  let res = sh.poll_recv_batch_internal(&mut cx, my_ptr, &mut out, 1);
+  assert!(sh.k_wf() && sh.k_counts() == (s.sc, s.rc));
+  assert!(matches!(res, Poll::Pending) && out.is_empty());
+  assert!(unsafe { (*my_ptr).load(Ordering::Relaxed) } == STATE_WAITING);
+  if already { assert!(sh.k_nr() == nr && sh.k_r_ptr(0) == my_ptr); } else { assert!(sh.k_nr() == nr + 1 && sh.k_r_ptr(nr) == my_ptr); }
+  assert!(wakes(3) == 0 && waker_refs(3) == 1);
+  kani::cover!(true, "END");
+}
+
 /// Teardown: every buffered value is dropped exactly once when the shared core is dropped.
 fn step_drop_once(cap: usize) {
   let sh = MpmcShared::<D>::new(cap);
@@ -689,3 +712,21 @@ fn ob_mpmc_core_poll_recv_batch_cap3r1() { step_poll_recv_batch(3, 1, false); }
 #[kani::stub(crate::sync::mutex::HybridMutex::lock_slow, stub_hm_lock_slow)]
 #[kani::unwind(8)]
 fn ob_mpmc_core_poll_recv_batch_cap3r1re() { step_poll_recv_batch(3, 1, true); }
+
+// @obligation id=mpmc.core.poll_recv_batch_pending.cap1r1re props=C06 kind=step tier=quick bound="logical capacity 1, EMPTY buffer, a sender alive, 1 async receiver waiter(s) (WAITING or CANCELLED); this future already queued (re-poll with a new waker); max = 1"
+#[kani::proof]
+#[kani::stub(std::thread::current::current, crate::verif_k_stubs::stub_thread_current)]
+#[kani::stub(parking_lot::RawMutex::lock_slow, crate::verif_k_stubs::stub_lock_slow)]
+#[kani::stub(parking_lot::RawMutex::unlock_slow, crate::verif_k_stubs::stub_unlock_slow)]
+#[kani::stub(crate::sync::mutex::HybridMutex::lock_slow, stub_hm_lock_slow)]
+#[kani::unwind(8)]
+fn ob_mpmc_core_poll_recv_batch_pending_cap1r1re() { step_poll_recv_batch_pending(1, 1, true); }
+
+// @obligation id=mpmc.core.poll_recv_batch_pending.cap1r1 props=C06 kind=step tier=quick bound="logical capacity 1, EMPTY buffer, a sender alive, 1 async receiver waiter(s) (WAITING or CANCELLED); max = 1"
+#[kani::proof]
+#[kani::stub(std::thread::current::current, crate::verif_k_stubs::stub_thread_current)]
+#[kani::stub(parking_lot::RawMutex::lock_slow, crate::verif_k_stubs::stub_lock_slow)]
+#[kani::stub(parking_lot::RawMutex::unlock_slow, crate::verif_k_stubs::stub_unlock_slow)]
+#[kani::stub(crate::sync::mutex::HybridMutex::lock_slow, stub_hm_lock_slow)]
+#[kani::unwind(8)]
+fn ob_mpmc_core_poll_recv_batch_pending_cap1r1() { step_poll_recv_batch_pending(1, 1, false); }
